@@ -14,7 +14,7 @@ import (
 func init() {
 	eng.Register(&eng.Check{
 		ID:          "C17",
-		Rule:        "E1 bounded product for Filter.Execute: container shapes ([]T, named slice type, [N]T, map[K]T for K in {string,int,named string,bool,interface{} with keys that print alike}; nil and empty containers) over element kinds (struct, *struct incl. nil, map[string]interface{}, interface{}, struct with typed + hidden fields incl. the all-zero element) of length 0..4 (thorough 0..5) with EVERY assignment of three element values, plus lengths 8, 9, 17, 33 with selected patterns, (evaluating to T / F / error for `f == 1`) x 30 filter expressions; oracle against the implementation's own element-wise Evaluate: result type (same slice type, []Elem for arrays, same map type), kept elements in original order / kept keys, first evaluation error => (nil, err), input unchanged (deep comparison with an identically built twin), fresh backing storage, nil filter returns its input, idempotence, E / not(E) partition when no element errs; non-containers (nil, int, string, struct, pointer to slice, chan, func) => error, never panic. Distinct by construction; non-trivial = container with >=1 element.",
+		Rule:        "E1 bounded product for Filter.Execute: container shapes ([]T, named slice type, [N]T, map[K]T for K in {string,int,named string,bool,interface{} with keys that print alike}; nil and empty containers) over element kinds (struct, *struct incl. nil, map[string]interface{}, interface{}, struct with typed + hidden fields incl. the all-zero element) of length 0..4 (thorough 0..5) with EVERY assignment of three element values, plus lengths 8, 9, 17, 33 with selected patterns, (evaluating to T / F / error for `f == 1`) x 30 filter expressions; oracle against the implementation's own element-wise Evaluate: result type (same slice type, []Elem for arrays, same map type), kept elements in original order / kept keys, first evaluation error => (nil, err), input unchanged (deep comparison with an identically built twin), fresh backing storage, a nil Filter (literal nil and the one CreateFilter(\"\") returns) returns its input unchanged for containers AND for every non-container input, idempotence, E / not(E) partition when no element errs; non-containers (nil, int, string, struct, pointer to slice, chan, func) => error, never panic. Distinct by construction; non-trivial = container with >=1 element.",
 		Assumptions: []string{"differential against Evaluate on the same tree (Evaluate itself is C01's business)", "bounded container sizes and element alphabet"},
 		Run:         runC17,
 	})
@@ -371,7 +371,38 @@ func runC17(c *eng.Ctx) {
 				} else {
 					c.Count("non-container:error")
 				}
+				// a nil Filter (also the one CreateFilter("") returns) hands back ANY input unchanged, container or not
+				for which, nf := range []*bexpr.Filter{nil, emptyFilter()} {
+					nres := execute(nf, n)
+					c.R.Evaluations++
+					same := nres.panicked == "" && nres.err == nil && sameValue(nres.res, n)
+					if !same {
+						c.Violate(eng.Violation{Kind: "nil-filter", Key: fmt.Sprintf("nil filter (%d) | data=%T(%v)", which, n, n), Coords: map[string]int{"x": xi, "c": -1},
+							Expected: "(input, nil)", Observed: fmt.Sprintf("(%#v, %v) %s", nres.res, nres.err, nres.panicked)})
+					}
+				}
 			}
 		}
 	}
+}
+
+func emptyFilter() *bexpr.Filter {
+	f, _ := bexpr.CreateFilter("")
+	return f
+}
+
+// sameValue: identity for reference kinds (pointer, chan, func), deep equality otherwise
+func sameValue(a, b interface{}) bool {
+	if a == nil || b == nil {
+		return a == nil && b == nil
+	}
+	va, vb := reflect.ValueOf(a), reflect.ValueOf(b)
+	if va.Type() != vb.Type() {
+		return false
+	}
+	switch va.Kind() {
+	case reflect.Ptr, reflect.Chan, reflect.Func, reflect.UnsafePointer:
+		return va.Pointer() == vb.Pointer()
+	}
+	return reflect.DeepEqual(a, b)
 }
